@@ -159,7 +159,7 @@ Proof.
     exists k1, k2. repeat (split; [assumption|]). exact I.
 Qed.
 
-Theorem ComputeDistance_exact : forall c t1 t2, (tsize t1 <= 500)%nat -> (tsize t2 <= 500)%nat ->
+Theorem ComputeDistance_is_ted : forall c t1 t2, (tsize t1 <= 500)%nat -> (tsize t2 <= 500)%nat ->
   ComputeDistance c (Some t1) (Some t2) = Some (ted c t1 t2).
 Proof.
   intros c t1 t2 H1 H2. unfold ComputeDistance.
